@@ -284,6 +284,12 @@ func (e astEngine) Gen(g *Gen) {
 		if e.section == "c02" {
 			w.Probes = probeNames(w)
 		}
+		if e.section == "c07" {
+			w.Walks = genWalks(g, w)
+		}
+		if e.section == "c07" {
+			w.Walks = genWalks(g, w)
+		}
 		g.Emit(w)
 	}
 	for i := 0; i < n; i++ {
@@ -300,6 +306,9 @@ func (e astEngine) Gen(g *Gen) {
 		countWorld(g, w)
 		if e.section == "c02" {
 			w.Probes = probeNames(w)
+		}
+		if e.section == "c07" {
+			w.Walks = genWalks(g, w)
 		}
 		g.Emit(w)
 	}
@@ -376,12 +385,14 @@ func (e astEngine) Run(raw json.RawMessage) (interface{}, error) {
 		return observeC08(r), nil
 	case "c09":
 		return observeC09(r), nil
+	case "c07":
+		return observeC07(r), nil
 	}
 	return nil, fmt.Errorf("unknown section %s", e.section)
 }
 
 func init() {
-	for _, s := range []string{"c01", "c02", "c03", "c04", "c08", "c09"} {
+	for _, s := range []string{"c01", "c02", "c03", "c04", "c08", "c09", "c07"} {
 		register(s, astEngine{s})
 	}
 }
